@@ -398,8 +398,8 @@ ApplyStep(hp, root, s) ==
        [] s.op = "ren" -> [hp EXCEPT !.nodes[id].attrs[s.idx].name = "y"]
        [] s.op = "meta" -> LET r == AddMetaVal(hp, a.meta, IF s.side = "orig" THEN 8 ELSE 9) IN [hp EXCEPT !.bufs = r.bufs, !.nodes[id].attrs[s.idx].meta = r.m]
        [] s.op = "tag" -> [hp EXCEPT !.nodes[id].attrs[s.idx].tags.name = 2]
-       [] s.op = "req" -> [hp EXCEPT !.nodes[id].attrs[s.idx].req = AddReq(@, "z")]
-       [] s.op = "vmerge" -> [hp EXCEPT !.nodes[id].attrs[s.idx].req = AddReq(@, "y"),
+       [] s.op = "req" -> [hp EXCEPT !.nodes[id].attrs[s.idx].req = AddReq(@, IF s.side = "orig" THEN "o1" ELSE "c1")]
+       [] s.op = "vmerge" -> [hp EXCEPT !.nodes[id].attrs[s.idx].req = AddReq(@, IF s.side = "orig" THEN "o2" ELSE "c2"),
                                         !.nodes[id].attrs[s.idx].val = IF @ = 0 \/ @ > 1 THEN 1 ELSE @]
        [] s.op = "setattr" -> [hp EXCEPT !.nodes[id].attrs = <<FreshAttr("")>>]
        [] s.op = "rename" -> [hp EXCEPT !.nodes[id].name = "Z"]
